@@ -236,7 +236,14 @@ def _run(w, h, d, res):
                 if any(c in name for c in '*?[]'):
                     props['match'] = 'simple'
                 elif name and existed:
-                    props['match'] = 'simple' if len(done) % 2 else 'glob'
+                    props['match'] = ('simple', 'glob', 'regex')[len(done) % 3]
+                    if props['match'] == 'regex':
+                        import re as _re
+                        if _re.escape(name) != name:
+                            props['match'] = 'glob'      # only names that are their own regular expression
+                        else:
+                            props['name'] = name + '$'
+                            res.obs['regex_addressed_requests'] += 1
             rep = yield w.call(op, **props)
             yield w.settle(60)
             st_ = rep.get('status') if isinstance(rep, dict) else None
